@@ -472,7 +472,9 @@ where
     cx.out
 }
 
-fn child_case<S>(name: &str, sel: &S, fail: bool, pop: &Pop, base: &SimRng, obs: &mut Obs) -> Vec<Violation>
+/// (`mk_sel` makes the selector ARGUMENT afresh for every call: what is compared is the wrapper around the child
+/// maker, not whether a selector value happens to carry something from one call to the next — that is C16's.)
+fn child_case<S>(name: &str, mk_sel: &dyn Fn() -> S, fail: bool, pop: &Pop, base: &SimRng, obs: &mut Obs) -> Vec<Violation>
 where
     S: Selector<Pop> + 'static,
     S::Error: StdError + Send + Sync + 'static,
@@ -481,7 +483,7 @@ where
     let mk = || Probe { calls: calls.clone(), fail };
     let reference = {
         let mut r = base.fork();
-        let res = mk().make_child(&mut r, pop, sel);
+        let res = mk().make_child(&mut r, pop, &mk_sel());
         observe_boxed(res, |x| format!("{x:?}"), &r)
     };
     let expected_calls = calls.swap(0, Ordering::Relaxed);
@@ -499,14 +501,14 @@ where
         let mut r = cx.base.fork();
         let b = calls.load(Ordering::Relaxed);
         let got = catch(|| {
-            let res: Result<Ind, BoxErr> = c.dyn_make_child(&mut r, pop, sel);
+            let res: Result<Ind, BoxErr> = c.dyn_make_child(&mut r, pop, &mk_sel());
             observe_boxed(res, |x| format!("{x:?}"), &r)
         });
         cx.compare("dyn_make_child", "", got, b);
     }
     each_flavour!(cx, mk(), [DynChildMaker<Pop, S>], |w| {
         let mut r = cx.base.fork();
-        let res = w.make_child(&mut r, pop, sel);
+        let res = w.make_child(&mut r, pop, &mk_sel());
         observe_boxed(res, |x| format!("{x:?}"), &r)
     });
     obs.count("steps", cx.flavours_run);
@@ -674,10 +676,10 @@ impl Check for C17 {
             _ => {
                 let pop = make_pop(sc.n.min(6), sc.data_seed);
                 match sc.imp {
-                    0 => child_case("probe+Tournament", &Tournament::new(k), false, &pop, &base, obs),
-                    1 => child_case("probe+Best", &Best, false, &pop, &base, obs),
-                    2 => child_case("probe-failing+Random", &Random, true, &pop, &base, obs),
-                    _ => child_case("probe+Lexicase", &Lexicase::new(sc.param), false, &pop, &base, obs),
+                    0 => child_case("probe+Tournament", &|| Tournament::new(k), false, &pop, &base, obs),
+                    1 => child_case("probe+Best", &|| Best, false, &pop, &base, obs),
+                    2 => child_case("probe-failing+Random", &|| Random, true, &pop, &base, obs),
+                    _ => child_case("probe+Lexicase", &|| Lexicase::new(sc.param), false, &pop, &base, obs),
                 }
             }
         };
